@@ -469,10 +469,16 @@ func (e *env) upstreamNetwork(
 		req.SetQuestion(pname, dns.TypeA)
 		req.Id = id
 
-		ctx, cancel := context.WithTimeout(context.Background(), 10*time.Second)
+		ctx, cancel := context.WithTimeout(context.Background(), e.upstreamWait(network))
 		defer cancel()
 		var nw forward.Network
+		started := time.Now()
 		resp, nw, xErr = ups.Exchange(ctx, req)
+		if time.Since(started) > 2*time.Second {
+			// The stub answers at once; an exchange that takes seconds is
+			// waiting for bytes that will never come.
+			e.missed("upstream-" + string(network))
+		}
 		uniq = string(labels[0])
 
 		wit = map[string]any{
@@ -564,9 +570,13 @@ func (e *env) upstreamNetwork(
 			req.SetQuestion(pname, dns.TypeA)
 			req.Id = id
 
-			ctx, cancel := context.WithTimeout(context.Background(), 10*time.Second)
+			ctx, cancel := context.WithTimeout(context.Background(), e.upstreamWait(network))
+			started := time.Now()
 			resp, _, xErr := ups.Exchange(ctx, req)
 			cancel()
+			if time.Since(started) > 2*time.Second {
+				e.missed("upstream-" + string(network))
+			}
 			st.unset(pname)
 
 			if xErr != nil {
@@ -631,6 +641,10 @@ func (e *env) upstreamNetwork(
 			res := judgeExchange(own, resp, xErr, wit, true, uniq)
 			e.accountUpstream(network, c, own, xErr, res.problems, "warmed", label)
 
+			if e.degraded("upstream-" + string(network)) {
+				continue
+			}
+
 			e.r.Bucket("upstream_differential", 1)
 			if res.class != fresh[idx].class && !res.problems && !fresh[idx].problems {
 				wit["outcome_warmed"] = res.detail
@@ -644,6 +658,15 @@ func (e *env) upstreamNetwork(
 			}
 		}
 	}
+}
+
+// upstreamWait bounds one exchange; see env.wait.
+func (e *env) upstreamWait(network forward.Network) (d time.Duration) {
+	if e.degraded("upstream-" + string(network)) {
+		return 300 * time.Millisecond
+	}
+
+	return 10 * time.Second
 }
 
 func (e *env) accountUpstream(network forward.Network, c *upCase, own *upOwn, xErr error, bad bool, inst, label string) {
